@@ -390,6 +390,9 @@ def templates_shard(res, rng):
             ["eq", ["inv", x], x], ["eq", ["neg", x], x], ["eq", ["shl", x, ["bvv", 1, w]], x], ["eq", ["and", x, ["bvv", m >> 1, w]], x],
             ["eq", ["concat", x, x], ["concat", x, y]], ["eq", ["ite", ["ult", x, y], x, y], x], ["eq", ["zext", 1, x], ["zext", 1, y]],
         ]
+        if w == 16:
+            # an amount that is itself byte-reversed (0x0100..0x0300 stands for 1..3)
+            shapes += [["shl", x, ["reverse", y]], ["lshr", x, ["reverse", y]], ["ashr", x, ["reverse", y]], ["shl", ["bvv", 1, w], ["reverse", y]]]
         if w % 8 == 0:
             shapes += [["eq", x, ["reverse", x]], ["reverse", ["add", x, ["bvv", 1, w]]], ["ult", ["reverse", x], y], ["eq", ["reverse", ["reverse", x]], x], ["sub", ["reverse", x], x], ["extract", 7, 0, ["reverse", x]]]
         if w <= 4:
